@@ -349,7 +349,14 @@ class Check:
               "coverage": self.cov, "assumptions": self.assumptions,
               "wall_s": round(time.time() - self.t0, 2), "violations": len(self.violations),
               "known_findings_reproduced": [f["key"] for f, _ in self.known_hit], "notes": self.notes}
-        with open(os.path.join(VERIF, "evidence", self.pid + ".json"), "w") as fh:
+        # evidence/<ID>.json always describes a run on /repo itself; a run on a changed copy of the sources
+        # (VERIF_REPO: seeded or hand-made changes) leaves its record elsewhere
+        evdir = os.path.join(VERIF, "evidence")
+        if os.path.abspath(REPO) != "/repo":
+            evdir = "/var/tmp/verif-evidence-alt"
+            os.makedirs(evdir, exist_ok=True)
+            ev["repo"] = REPO
+        with open(os.path.join(evdir, self.pid + ".json"), "w") as fh:
             json.dump(ev, fh, indent=1, default=str)
         for f, desc in self.known_hit:
             print("KNOWN-FINDING: property=%s %s (%s)" % (self.pid, f["what"], f["key"]))
